@@ -51,15 +51,8 @@ impl ChannelSetup {
     ensures r == feerate_sat(total_fee as nat, weight as nat),
 //@end
 
-// ------------------------------------------------------------------ spec side (from the property)
-// every output of the sweep pays a wallet-derivable or allowlisted script
-pub open spec fn sweep_pays_node(w: VxWallet, tx: Transaction, path: DerivationPath) -> bool {
-    tx.version == Version::TWO
-    && forall|i: int| 0 <= i < tx.output@.len() ==> wallet_ok(w, (#[trigger] tx.output@[i]).script_pubkey, path)
-}
-pub open spec fn seq_in(seq: u32, allowed: Seq<u32>) -> bool { allowed.contains(seq) }
-pub open spec fn non_anchor_seqs() -> Seq<u32> { seq![0x0000_0000u32, 0xffff_fffdu32, 0xffff_ffffu32] }
-pub open spec fn anchor_seqs() -> Seq<u32> { seq![0x0000_0001u32] }
+//@include frag/sweep_spec.rs
+pub open spec fn sv_policy(v: SimpleValidator) -> SimplePolicy { v.policy }
 
 impl SimpleValidator {
 
@@ -73,24 +66,11 @@ impl SimpleValidator {
 //@end
 
 //@fn vls-core/src/policy/simple_validator.rs :: impl Validator for SimpleValidator :: validate_delayed_sweep props=C09
-    requires height_sane(*cstate), tx.input@.len() > 0,
-    ensures
-        r.is_ok() && vx_strict(T_policy_sweep_destination_allowlisted) ==> sweep_pays_node(*wallet, *tx, *wallet_path),   //[C09.delayed.destinations]
-        r.is_ok() ==> locktime_satisfied_by_height(tx.lock_time, (cstate.current_height + 2) as u32),                   //[C09.delayed.locktime]
-        r.is_ok() ==> tx.input@[0].sequence.0 == setup.counterparty_selected_contest_delay as u32,                      //[C09.delayed.sequence]
+//@include frag/c/sv_validate_delayed_sweep.rs
 //@end
 
 //@fn vls-core/src/policy/simple_validator.rs :: impl Validator for SimpleValidator :: validate_counterparty_htlc_sweep props=C09
-    requires height_sane(*cstate), tx.input@.len() > 0,
-    ensures
-        r.is_ok() && vx_strict(T_policy_sweep_destination_allowlisted) ==> sweep_pays_node(*wallet, *tx, *wallet_path),   //[C09.cp-htlc.destinations]
-        // locktime no later than the HTLC expiry (received HTLC) resp. the current height + lag (offered HTLC)
-        r.is_ok() ==> (match spec_received_htlc_cltv(*redeemscript, setup_is_anchors(*setup)) {
-            Some(cltv) => 0 <= cltv && cltv <= u32::MAX && locktime_consensus(tx.lock_time) <= cltv,
-            None => spec_is_offered_htlc(*redeemscript, setup_is_anchors(*setup))
-                && locktime_satisfied_by_height(tx.lock_time, (cstate.current_height + 2) as u32),
-        }),                                                                                                              //[C09.cp-htlc.locktime]
-        r.is_ok() ==> seq_in(tx.input@[0].sequence.0, if setup_is_anchors(*setup) { anchor_seqs() } else { non_anchor_seqs() }),   //[C09.cp-htlc.sequence]
+//@include frag/c/sv_validate_counterparty_htlc_sweep.rs
 //@proof before /if !vx_contains_u32\(&valid_seqs, seq\)/
         proof {
             assert(ANCHOR_SEQS@ =~= anchor_seqs());
@@ -99,37 +79,18 @@ impl SimpleValidator {
 //@end
 
 //@fn vls-core/src/policy/simple_validator.rs :: impl Validator for SimpleValidator :: validate_justice_sweep props=C09
-    requires height_sane(*cstate), tx.input@.len() > 0,
-    ensures
-        r.is_ok() && vx_strict(T_policy_sweep_destination_allowlisted) ==> sweep_pays_node(*wallet, *tx, *wallet_path),   //[C09.justice.destinations]
-        r.is_ok() ==> locktime_satisfied_by_height(tx.lock_time, (cstate.current_height + 2) as u32),                   //[C09.justice.locktime]
-        r.is_ok() ==> seq_in(tx.input@[0].sequence.0, non_anchor_seqs()),                                               //[C09.justice.sequence]
+//@include frag/c/sv_validate_justice_sweep.rs
 //@proof before /if !vx_contains_u32\(&valid_seqs, seq\)/
         proof { assert(NON_ANCHOR_SEQS@ =~= non_anchor_seqs()); }
 //@end
 
 //@fn vls-core/src/policy/simple_validator.rs :: impl Validator for SimpleValidator :: decode_and_validate_htlc_tx props=C09
-    requires tx.input@.len() > 0, tx.output@.len() > 0, htlc_amount_sat * 1000 <= u64::MAX,
-    ensures
-        // the sighash handed to the signer is that of the BOLT-3 HTLC transaction rebuilt from the negotiated delay and
-        // the channel's revocation / delayed keys - and equals the sighash of the supplied transaction
-        r.is_ok() ==> ({
-            let (rate, htlc, sh, ty) = r->Ok_0;
-            let delay = if is_counterparty { setup.holder_selected_contest_delay } else { setup.counterparty_selected_contest_delay };
-            &&& ty == (if setup_is_anchors(*setup) { EcdsaSighashType::SinglePlusAnyoneCanPay } else { EcdsaSighashType::All })
-            &&& sh@ == sighash_p2wsh(htlc_tx(tx.input@[0].previous_output.txid, rate, delay, htlc, setup_features(*setup),
-                    txkeys.broadcaster_delayed_payment_key, txkeys.revocation_key), 0, *redeemscript, htlc_amount_sat, ty)   //[C09.htlc-tx.sighash-of-rebuilt]
-            &&& sh@ == sighash_p2wsh(*tx, 0, *redeemscript, htlc_amount_sat, ty)                                           //[C09.htlc-tx.equals-supplied]
-            &&& htlc.amount_msat == htlc_amount_sat * 1000 && htlc.transaction_output_index == Some(tx.input@[0].previous_output.vout)
-        }),
+//@include frag/c/sv_decode_and_validate_htlc_tx.rs
 //@sub /(?s)let \(revocation_key, contest_delay, delayed_pubkey\) =.*?\.unwrap_or_else\(\|_vx_unused\| \(vec!\[\], 0, vec!\[\]\)\);/ => 
 //@end
 
 //@fn vls-core/src/policy/simple_validator.rs :: impl Validator for SimpleValidator :: validate_htlc_tx props=C09
-    ensures
-        r.is_ok() && vx_strict(T_policy_htlc_fee_range) ==> feerate_per_kw <= self.policy.max_feerate_per_kw
-            && (setup_is_zero_fee_htlc(*setup) || feerate_per_kw >= self.policy.min_feerate_per_kw),                       //[C09.htlc-tx.fee-range]
-        r.is_ok() && vx_strict(T_policy_htlc_locktime) ==> !(htlc.offered && htlc.cltv_expiry == 0),
+//@include frag/c/sv_validate_htlc_tx.rs
 //@end
 
 } // impl
